@@ -144,6 +144,34 @@ def arbitrary_blocks(ctx, res):
     chain.unpatch()
 
 
+def concurrent_flush(store, late):
+    """flush_blocks_to_disk with a second thread that hands `late` to the buffer at the moment the first has written its rows
+    and not yet emptied the buffer, and then flushes itself (one fixed schedule of the two writers; with the store's lock the
+    second writer waits)"""
+    import threading
+    orig = store.write_blocks_to_disk
+    started = []
+
+    def second_writer():
+        store.add_block_to_buffer(late)
+
+    def hooked(blocks_):
+        orig(list(blocks_))
+        if not started:
+            t = threading.Thread(target=second_writer, daemon=True)
+            started.append(t)
+            t.start()
+            t.join(0.3)
+    store.write_blocks_to_disk = hooked
+    try:
+        store.flush_blocks_to_disk()
+    finally:
+        del store.write_blocks_to_disk
+    for t in started:
+        t.join(10)
+    store.flush_blocks_to_disk()          # the second writer's own flush
+
+
 def run(ctx):
     res = kit.Result()
     rng = ctx.rng
@@ -180,14 +208,26 @@ def run(ctx):
         written = [tree.blocks[0]]
         # random batching into flushes
         i = 0
+        handover_at = rng.randrange(0, max(1, len(blocks) - 1))     # one flush per scenario overlaps with a second writer
         while i < len(blocks):
             k = rng.choice([1, 1, 2, 3, 5])
             batch = blocks[i:i + k]
             i += k
+            late = None
+            if i > handover_at and i < len(blocks) and handover_at >= 0:
+                # two writers of one store (miner thread / networking thread): while this flush is between having written its
+                # rows and emptying the buffer, another thread hands over the next block and then flushes itself
+                late = blocks[i]
+                i += 1
+                handover_at = -1
             for b in batch:
                 store.add_block_to_buffer(b)
             try:
-                store.flush_blocks_to_disk()
+                if late is not None:
+                    concurrent_flush(store, late)
+                    res.count("flush_overlapping_a_handover")
+                else:
+                    store.flush_blocks_to_disk()
                 r = "ok"
             except Exception as e:
                 r = "fail"
@@ -195,6 +235,10 @@ def run(ctx):
             ops.append("store write " + " ".join(hx(b.serialize()) for b in batch))
             impl.append(r)
             written += batch
+            if late is not None:
+                ops.append("store write " + hx(late.serialize()))
+                impl.append(r)
+                written.append(late)
             # restart: reopen the file, read, rebuild
             store.close()
             store = blockstore.BlockStore(path)
